@@ -343,7 +343,8 @@ _MPI_INC = ["-I/usr/lib/x86_64-linux-gnu/openmpi/include", "-I/usr/lib/x86_64-li
 _MPI_LIB = ["-L/usr/lib/x86_64-linux-gnu/openmpi/lib", "-lmpi"]
 PROPS["C18"] = dict(
     targets=[dict(name="C18i", src="vp/props/C18.cpp", defs=["VP_C18_T=0"], flags=_MPI_INC, libs=_MPI_LIB, maxlen=52),
-             dict(name="C18d", src="vp/props/C18.cpp", defs=["VP_C18_T=1"], flags=_MPI_INC, libs=_MPI_LIB, maxlen=52)],
+             dict(name="C18d", src="vp/props/C18.cpp", defs=["VP_C18_T=1"], flags=_MPI_INC, libs=_MPI_LIB, maxlen=52),
+             dict(name="C18ib", src="vp/props/C18.cpp", defs=["VP_C18_T=0", "VP_C18_BASED=1"], flags=_MPI_INC, libs=_MPI_LIB, maxlen=52)],
     quick=dict(cases=1500, floor=12000),
     thorough=dict(cases=40000, floor=300000, fuzz=dict(time=240)),
     level="exploration",
@@ -354,7 +355,7 @@ PROPS["C18"] = dict(
                 "MPI_Pack+MPI_Unpack or MPI_Sendrecv on MPI_COMM_SELF, to or from a partner view of the same element count but another rank and layout (contiguous, transposed / rotated storage, padded "
                 "block, strided, array_ref): the k-th element must arrive at the k-th element and every other cell of the receiving parent storage must be unchanged. All MPI datatype calls are interposed "
                 "(PMPI): a datatype must be committed before MPI sees it in a buffer description, must not be used or freed after being freed, and every created datatype is freed when the message dies. "
-                "Element types int and double."),
+                "Element types int and double; a third harness replays the int programs on roots with non-zero index bases and with reindexed / blocked among the operations."),
     technique="model-based differential testing of MPI datatypes through real MPI_Pack/Unpack/Sendrecv on generated views, PMPI datatype-lifecycle ledger (rapidcheck + libFuzzer)",
     rule=("case = root kind x D x extents x view-forming operation sequence x front end x partner (rank, extents, layout, front end) x direction x transport; non-trivial = the view has >= 2 elements and "
           "is not a contiguous 1-D range; distinct = hash of decoded case text"),
